@@ -753,6 +753,17 @@ class Interp:
     def x_Assert(self, node, frame):
         if self.env.is_type_narrowing_assert(node):
             return
+        if frame.fn is not None and (getattr(frame.fn, "__module__", "") or "").startswith("lemmas"):
+            # an intermediate assertion of a proof: proved here, usable afterwards
+            from .verify import contract_tag
+
+            self.ctx.pure += 1
+            try:
+                r = self.eval(node.test, frame)
+            finally:
+                self.ctx.pure -= 1
+            self.ctx.oblige(f"{contract_tag(self.top_contract)}/assert.L{node.lineno - frame.fn.__code__.co_firstlineno}", ops.truth_term(r))
+            return
         if not self.truth(self.eval(node.test, frame)):
             self.raise_exc(AssertionError)
 
